@@ -785,6 +785,8 @@ func c18Scripts(ctx *Ctx, volume bool) []c18Script {
 		{cl("init", "", 0), cl("start", "1", 0), up("errobj", "1", 0, 0), cl("stop", "1", 50)},
 		{cl("init", "", 0), cl("start", "1", 0), up("errlist", "1", 0, 0), up("event", "1", 0, 0), up("drop", "1", 0, 0), cl("stop", "1", 0)},
 		{cl("init", "", 0), cl("start", "1", 0), cl("ping", "", 0), up("burst", "1", 4, 0), cl("ping", "", 0), cl("terminate", "", 200)},
+		{cl("init", "", 0), cl("start-refused", "1", 0), cl("terminate", "", 200)},
+		{cl("init", "", 0), cl("start", "1", 0), cl("start-refused", "2", 0), up("event", "1", 0, 0), cl("stop", "1", 100), cl("start-refused", "3", 0), cl("abort", "", 200)},
 	}
 	for k, acts := range corpus {
 		for _, hd := range []int{0, 150} {
@@ -822,6 +824,9 @@ func c18Scripts(ctx *Ctx, volume bool) []c18Script {
 		}
 		if r.Chance(1, 8) {
 			acts = append(acts, cl("start", ids[0], r.Intn(100))) // re-use of a live id
+		}
+		if r.Chance(1, 10) {
+			acts = append(acts, cl("start-refused", "9", r.Intn(100))) // upstream resets right after the handshake
 		}
 		var mid []c18Action
 		for _, id := range ids {
